@@ -35,6 +35,10 @@ CHECKS['C20'] = dict(engine='progenum', category='exploration', section='3/C20',
    technique='exhaustive enumeration of entry point x argument position x hostile string on the real SQL drivers over a recording database/sql driver; every statement lexed and compared structurally with the benign call',
    text='All 19 entry points of gdbi.GraphDB/GraphInterface that take an id, label or graph name (a reflection audit fails the check if an interface method is neither driven nor known to take no client string) x every client-string position x 14 hostile strings (quotes, doubled quotes, backslashes, comment markers, separators, $1, %s, NUL, unicode, classic injections; for existing-sql both halves of the table-qualified gid) on the real psql and existing-sql drivers. Each recorded statement must lex, have a token structure that the benign call also produces, and carry the client string only as a bound argument or as the literal that decodes to it.',
    note='PostgreSQL lexing rules with standard_conforming_strings=on; the recording driver returns empty result sets, so row-dependent follow-up statements are not reached. Interpolation sites are listed one by one in known_findings.txt; a new site is a fresh violation.')
+CHECKS['C16'] = dict(engine='histmc', category='exploration', section='3/C16',
+   technique='exhaustive finite product position x atom (and ordered atom pairs, with deletes) executed on the real GripServer handlers and GraphInterface, compared with the reference graph model through the full observation battery',
+   text='Nine positions (graph name, vertex gid/label, edge gid/label/from/to, property name, property value) x 29 hostile strings (separator and control bytes, invalid UTF-8, reserved words used internally, prefixes of one another, unicode, 300 bytes) or 17 JSON values (nesting, empty containers, numeric extremes, null), each through the server handlers and directly; then every ordered pair of distinct atoms at the identifier positions (all positions when thorough), with and without deleting the first. Accepted => the element reads back identical through lookup, listings, adjacency, label scans/lists and nothing else in any graph changes; rejected => nothing changes at all.',
+   note='Acceptance itself is the implementation\'s choice. kvgraph over memkv. Refused strings are not used as probe ids (they cannot be stored); stale label-index entries after deletes are charged to C03 only.')
 NA_REASON = 'check not built yet in this session (planned in DESIGN.md section 3); nothing is claimed for it'
 
 m = {
